@@ -11,8 +11,18 @@ THEOREMS = [
     ("UscxmlVerif.Properties.C05.exitSet_below_domain", "proved", "the static exit set contains only proper states strictly below the transition domain"),
     ("UscxmlVerif.Properties.C05.exitSet_targetless", "proved", "a targetless transition has an empty exit set"),
 ]
-LEAN_FILES = ["UscxmlVerif.Properties.C05"]
-FINISH = {"level": "exploration"}
+P = "UscxmlVerif.Properties.C05."
+THEOREMS += [
+    (P + "domain_is_w3c", "proved", "for every coherent chart and every transition of a real state with real (non-history) targets: the transition domain of Predicates.cpp (from which the embedded exit sets come) is Appendix D's getTransitionDomain, over raw or effective targets, whatever history is recorded"),
+    (P + "exit_set_is_w3c", "proved", "in every configuration of real states Appendix D's computeExitSet of such a transition is exactly the active part of the embedded exitSetBools"),
+    (P + "conflict_table_sound", "proved", "two such transitions whose exit sets intersect in any configuration (Appendix D's conflict) are marked in conflictBools"),
+    (P + "conflict_table_exact", "proved", "for transitions whose sources are neither equal nor nested conflictBools says exactly that the static exit sets share a state"),
+    (P + "ancestors_are_w3c", "proved", "ancBools is Appendix D's isDescendant"),
+    ("UscxmlVerif.Proofs.Struct.findLCCA_eq", "proved", "findLCCA of Predicates.cpp (walk over getProperAncestors, fall back to the last one) is Appendix D's findLCCA on coherent charts"),
+    ("UscxmlVerif.Proofs.Struct.coh_of_coherent", "proved", "the decidable predicate the driver evaluates on every generated chart gives the hypotheses the lemmas use"),
+]
+LEAN_FILES = ["UscxmlVerif.Properties.C05", "UscxmlVerif.Proofs.Struct"]
+FINISH = {"level": "proof"}
 
 
 def run_tables(ctx, cases):
@@ -54,10 +64,21 @@ def run(ctx):
             h, m = run_tables(ctx, [(d2, [])])
             ctx.violation("tables-%d" % len(ctx.violations), "tables", [E.case_line("tables", d2, [])],
                           detail="annotation of ChartToC::prepare differs from Model.Tables (= the relations of the recommendation)\nchart: %s\nfirst difference: %s" % (charts.sexpr(d2), first_field_diff(h[0], m[0])))
+    # the hypotheses of the theorems on the generated charts
+    lines = [E.case_line("tables", d, []) for d, _ in cases]
+    C = [x for part in chunks(lines, 400) for x in ctx.driver_lines("coherent", part, timeout=1800)]
+    st["coherent"] = sum(1 for x in C if x.startswith("coh=1"))
+    st["plain_transitions"] = sum(int(x.split("plain=")[1].split("/")[0]) for x in C if "plain=" in x)
+    for (d, _), x in zip(cases, C):
+        if not x.startswith("coh=1") and not any(p.endswith("coherent.txt") for p, _ in ctx.violations):
+            ctx.violation("coherent", "tables", [E.case_line("tables", d, [])], found_input=False,
+                          detail="a generated (valid) document is outside the hypothesis `Coherent` of the C05 theorems (%s): they say nothing about it\nchart: %s" % (x, charts.sexpr(d)))
     ctx.add_suite("tables", **st)
     d, _ = cases[-1]
     ctx.sample({"chart": charts.sexpr(d)[:400], "annotation": H[-1][:300]})
     ctx.coverage["evaluations"] = st["inputs"]
     ctx.coverage["distinct_nontrivial"] = st["inputs"]
     ctx.coverage["rule"] = "documentOrder/parent/childBools/ancBools/completionBools (incl. history completion)/exitSetBools/conflictBools/targetBools of every state and transition of random charts (3-24 states, history p=0.5, multi-target, internal) as left in the DOM by ChartToC::prepare vs Model.Tables"
-    ctx.assumptions += ["the tables embedded in the emitted C / Promela / VHDL text are compared by C04 / C06 / C18"]
+    ctx.assumptions += ["default completion, history completion, document/post-fix order, children and target sets have no specification other than Model.Tables itself (the flat chart `flatten` builds is shared with the Appendix D oracle of C01): for them the check is the bit-for-bit comparison only",
+                        "transitions into history states and transitions of <initial>/<history> elements are outside `plainTrans` (recorded finding hist-domain)",
+                        "the tables embedded in the emitted C / Promela / VHDL text are compared by C04 / C06 / C18"]
